@@ -116,7 +116,7 @@ func evalC07(c *Ctx, cs *Case) {
 		}
 		walk(root, true)
 	}
-	extChoices := []int{0, 1, 7}
+	extChoices := []int{0, 1, 7, 8}
 	targetForms := []int{0, 1, 2} // explicit abs, default via chdir, relative ./target/../target
 	if cs.Kind != "one-hostile" || c.Quick() {
 		extChoices = []int{extChoices[r.Intn(3)]}
